@@ -1,9 +1,9 @@
 SPECIFICATION Spec
 CONSTANTS
-  Eps = {e1, e2, e3}
-  MaxNotes = 6
+  Eps = {e1, e2}
+  MaxNotes = 2
   None = None
-  Calls = {}
+  Calls = {c1, c2}
   GateBySubscription = FALSE
 SYMMETRY Perms
 INVARIANT NoViolation
